@@ -38,6 +38,10 @@ func runC08(c *Ctx) {
 	r07_3(c, "R08.7")
 	r06_1(c, "R08.8")
 	r08_9(c, "R08.9")
+	// the outcome must not depend on the schedule: the goroutine that forwards
+	// STATs to the writer never waits on a context-free primitive such as a
+	// limited writer group (shared with C04/C07)
+	r04_11(c, "R08.10")
 }
 
 // R08.1: all sends are serialised.
